@@ -467,6 +467,21 @@ def run_first_order_case(res, cfg):
             cmp(res, cfg, 'end_point.quadrature', H.rd(LB.uend), eq, esc, label)
         elif not right:
             pass
+    # the same sweeper object on a later step with another step size (what a step-size controller does between steps): the
+    # sweep is the matrix iteration for the step size the level has NOW
+    if probes and cfg['sweeper'] != 'multi_implicit':
+        label, Ufull, tau = probes[min(1, len(probes) - 1)]
+        dt2 = 0.5 * dt
+        H.set_dt(L, dt2)
+        try:
+            ref2 = O.sweep_first_order(nodes, Q, QDs, splits, dt2, t0, Ufull, tau, mass=mass)
+            H.write_state(L, P, Ufull, nodes, tau)
+            sweep.update_nodes()
+            cmp(res, cfg, 'update_nodes.u.after_step_size_change', H.read_u(L, M)[1:], ref2['U'][1:], ref2['scale'], label)
+        except np.linalg.LinAlgError:
+            res.outcomes['singular_system_probe'] += 1
+        finally:
+            H.set_dt(L, dt)
     if len(res.samples) < 2:
         res.samples.append({**{k_: v for k_, v in cfg.items() if not k_.startswith('_')}, 'probes': [pr[0] for pr in probes][:8] + ['...'], 'n_probes': len(probes)})
 
